@@ -2,6 +2,7 @@ package sym
 
 import (
 	"fmt"
+	"time"
 	"go/constant"
 	"go/token"
 	"go/types"
@@ -341,6 +342,9 @@ func (fr *frame) runBlock() {
 		in.steps++
 		if in.steps > in.W.Cfg.MaxSteps {
 			in.endPath("limit", "step limit")
+		}
+		if in.steps&0xffff == 0 && !in.W.Cfg.Deadline.IsZero() && time.Now().After(in.W.Cfg.Deadline.Add(20*time.Second)) {
+			in.endPath("limit", "wall-clock deadline passed inside a path")
 		}
 		if p := ins.Pos(); p != token.NoPos {
 			fr.pos = p
